@@ -93,6 +93,15 @@ def main():
     proto = os.fdopen(os.dup(1), 'w', buffering=1)
     os.dup2(2, 1)
     sys.stdout = sys.stderr
+    # Pin this worker (and the children it forks) to one CPU: the baton
+    # hand-off between simulated threads is then a same-core wake-up.  Under
+    # 16-way load an unpinned hand-off costs ~240 us instead of ~30 us.
+    try:
+        cpus = sorted(os.sched_getaffinity(0))
+        wid = int(os.environ.get('SIM_WID', '0'))
+        os.sched_setaffinity(0, {cpus[wid % len(cpus)]})
+    except (AttributeError, OSError, ValueError):
+        pass
     boot.boot()
     mods = _mods()
     ctx = Ctx(mods)
